@@ -99,10 +99,14 @@ theorem lines_partition (src : Bytes) :
     (∀ i, i + 1 < (specLines src).length → ∀ l, (specLines src)[i]? = some l → l.term ≠ []) :=
   EaselModel.Buffer.lines_partition src
 
-/-- The line and read operations leave the anchor (in input coordinates) and its count as they found them. -/
+/-- The line operations leave the anchor (in input coordinates) and its count as they found them — exactly: an anchor at
+    or before the cursor is kept (`brkAnchor b = absAnchor b`, every history inside the API contract); an anchor AHEAD of
+    the cursor (accepted by `esl_buffer_SetAnchor`, or left behind by an in-window rewind) is replaced by the call's own
+    bracket `SetAnchor(cursor) … RaiseAnchor(cursor)` and is gone afterwards (`brkAnchor b = none`). -/
 theorem getLine_keeps_anchor (b : Buf) (h : WF b) (ha : AnchOK b) (hn : NoFpNoAnchor b) :
-    KeepA b (getLine b).2 ∧ AnchOK (getLine b).2 :=
-  getLine_keep b h ha hn
+    KeepX b.brkAnchor b (getLine b).2 ∧ AnchOK (getLine b).2 ∧
+    ((∀ a, b.anchor = some a → a ≤ b.pos) → KeepA b (getLine b).2) :=
+  ⟨(getLine_keepX b h ha hn).1, (getLine_keepX b h ha hn).2, fun hle => (getLine_keep b h ha hn hle).1⟩
 
 /-- `buffer_countline` = `esl_memnewline` of the whole rest of the input, independent of how the input is paged. -/
 theorem countline_pagesize_independent (b : Buf) (h : WF b) (hlt : b.pos < b.n) :
@@ -231,44 +235,65 @@ example : Quiet (openBuf .stream 8 [97, 10, 98]) := open_quiet .stream 8 [97, 10
 example : ∃ b : Buf, b.anchor = some 0 ∧ b.n + b.pagesize ≤ b.balloc :=
   ⟨{ (openBuf .stream 2 [97]) with anchor := some 0, balloc := 8 }, by decide⟩
 
-/-! ## Outside the API contract (round 3): the caller contract of `history_spec` is discharged
+/-! ## Every history (rounds 3 and 4): the caller contract of `history_spec` is discharged
 
-`SafeOp` (EaselModel/Buffer/Safe.lean) is what remains asked of the caller, in terms of the current window; `Total`
-(EaselModel/Buffer/Total.lean) lists what an operation may do: the specification step, or one of the documented
-`eslEINVAL` outcomes with the state after it. -/
+`CallerOk` (EaselModel/Buffer/Safe.lean) is the ONE thing still asked of the caller: `esl_buffer_Set(p, nused)` stays within
+the bytes the preceding `Get*` call exposed — undefined by the documentation, unchecked by the code. Everything else has an
+outcome defined by the code and proved here: `Total` (EaselModel/Buffer/Total.lean) lists what an operation may do: the
+specification step, or one of the documented `eslEINVAL` outcomes with the state after it. Since round 4 this includes
+anchors set AHEAD of the cursor and in-window rewinds to before the active anchor (b86a62d made the code cope with them;
+the window invariant `WF` and the simulation relation `R` no longer assume anchor ≤ cursor; the specification says what
+happens to such an anchor: `aBrk`). -/
 
-/-- **One step, no contract**: from any state reached so far, any of the 14 operations that respects the residual duties
-    either simulates the specification step or answers `eslEINVAL` as `Total` describes, and the simulation relation
-    holds again (so the next operation is covered too). -/
-theorem step_total (P : Nat) (op : Op) (a : AState) (s : Sess) (r : R P a s) (hs : SafeOp s op) :
+/-- **One step, no contract**: from any state reached so far, any of the 14 operations with any argument (`CallerOk` only
+    excludes the undefined `Set`) either simulates the specification step or answers `eslEINVAL` as `Total` describes, and
+    the simulation relation holds again (so the next operation is covered too). -/
+theorem step_total (P : Nat) (op : Op) (a : AState) (s : Sess) (r : R P a s) (hs : CallerOk s op) :
     ∃ a', Total a op (obsOf op (s.step op).1 (s.step op).2) a' ∧ R P a' (s.step op).2 :=
   EaselModel.Buffer.step_total P op a s r hs
 
-/-- **Every history of the 14 operations, no API contract hypothesis**: every opener, every page size ≥ 1, every input;
-    the only hypothesis is `SafeRun` (each clause of which is necessary, see `unsafe_*` below). -/
+/-- **Every history of the 14 operations on which the code defines the outcome**: every opener, every page size ≥ 1, every
+    input, every argument of every call; the only hypothesis is `CallerOkRun` (no `Set` beyond the exposed bytes; that
+    clause is necessary, see `unsafe_set_beyond_window`). -/
 theorem history_total (mode : Mode) (ps : Nat) (src : Bytes) (hps : 0 < ps) (ops : List Op)
-    (hs : SafeRun { b := openBuf mode ps src } ops) : TotalRun (AState.init src) { b := openBuf mode ps src } ops :=
+    (hs : CallerOkRun { b := openBuf mode ps src } ops) : TotalRun (AState.init src) { b := openBuf mode ps src } ops :=
   EaselModel.Buffer.history_total mode ps src hps ops hs
 
 /-- … and no operation of such a history faults or ends in an internal error: `eslOK`, `eslEOF`, `eslEOL`, `eslEINVAL` only. -/
 theorem history_total_no_fault (mode : Mode) (ps : Nat) (src : Bytes) (hps : 0 < ps) (ops : List Op)
-    (hs : SafeRun { b := openBuf mode ps src } ops) :
+    (hs : CallerOkRun { b := openBuf mode ps src } ops) :
     ∀ o ∈ obsRun { b := openBuf mode ps src } ops, o.st = .ok ∨ o.st = .eof ∨ o.st = .eol ∨ o.st = .einval :=
   EaselModel.Buffer.history_total_no_fault mode ps src hps ops hs
+
+/-- A history without `Set` needs no hypothesis at all. -/
+theorem history_total_no_set (mode : Mode) (ps : Nat) (src : Bytes) (hps : 0 < ps) (ops : List Op)
+    (hns : ∀ op ∈ ops, ∀ k, op ≠ .set k) :
+    TotalRun (AState.init src) { b := openBuf mode ps src } ops ∧
+    ∀ o ∈ obsRun { b := openBuf mode ps src } ops, o.st = .ok ∨ o.st = .eof ∨ o.st = .eol ∨ o.st = .einval :=
+  have h := callerOkRun_of_no_set ops hns { b := openBuf mode ps src }
+  ⟨EaselModel.Buffer.history_total mode ps src hps ops h, EaselModel.Buffer.history_total_no_fault mode ps src hps ops h⟩
 
 /-- The error outcomes of `Total` occur only outside the API contract (inside it: `step_simulates`). -/
 theorem error_only_outside_contract (P : Nat) (a a' : AState) (op : Op) (o : Obs) (h : Total a op o a') (he : o.st = .einval) :
     ¬ Valid P a op :=
   h.error_outside he
 
-/-- The residual duties ask nothing beyond the API contract. -/
-theorem contract_implies_safe (P : Nat) (a : AState) (s : Sess) (r : R P a s) (op : Op) (hv : Valid P a op) : SafeOp s op :=
+/-- `CallerOk` asks nothing beyond the API contract. -/
+theorem contract_implies_callerOk (P : Nat) (a : AState) (s : Sess) (r : R P a s) (op : Op) (hv : Valid P a op) : CallerOk s op :=
   valid_safe r op hv
 
-/-- `SafeOp` is decidable by the test the driver and the harness apply before every `try…` operation. -/
-theorem safe_decidable (s : Sess) (op : Op) : safeB s op = true ↔ SafeOp s op := safeB_iff s op
+/-- `CallerOk` is decidable, by the test the driver and the harness apply before every `tryset` operation. -/
+theorem callerOk_decidable (s : Sess) (op : Op) : callerOkB s op = true ↔ CallerOk s op := callerOkB_iff s op
 
-/-! ### the clauses of `SafeOp`, and the two defects that the total statement exposed (both repaired in /repo:
+/-- In the specification an anchor ahead of the cursor survives exactly until the next line/token call brackets the
+    cursor: the bracket changes nothing when the anchor is at or before its offset, and removes it otherwise. -/
+theorem spec_bracket (a : AState) (t : Nat) :
+    ((∀ A, a.anchor = some A → A ≤ t) → aBrk a t = a) ∧
+    (∀ A, a.anchor = some A → t < A → (aBrk a t).anchor = none) := by
+  refine ⟨aBrk_of_le a t, fun A hA hlt => ?_⟩
+  unfold aBrk; rw [hA]; simp only []; rw [if_neg (by omega)]
+
+/-! ### the clause of `CallerOk`, and the two defects that the total statement exposed (both repaired in /repo:
 4515997, b86a62d; the histories below are the regression inputs, compared exactly with the real code on every run) -/
 
 def srcW : Bytes := [97, 98, 10, 99, 100, 10, 101, 102, 10, 103, 104, 10]    -- "ab\ncd\nef\ngh\n"
@@ -276,46 +301,57 @@ def srcW : Bytes := [97, 98, 10, 99, 100, 10, 101, 102, 10, 103, 104, 10]    -- 
 /-- `Set(p, nused)` beyond the loaded bytes (a caller error by the documentation of `esl_buffer_Set`) is necessary: the
     stream answers `eslEINCONCEIVABLE`, the cursor stays outside the window and the next `Read` copies from beyond it. -/
 theorem unsafe_set_beyond_window :
-    safeRunB { b := openBuf .stream 2 srcW } [.get, .set 5] = false ∧
+    callerOkRunB { b := openBuf .stream 2 srcW } [.get, .set 5] = false ∧
     (obsRun { b := openBuf .stream 2 srcW } [.get, .set 5, .read 1]).map (·.st) = [.ok, .einconceivable, .fault] := by decide
 
 /-- REGRESSION (4515997): `SetOffset` beyond the end in a whole-input mode used to answer `eslOK` and leave the cursor
-    outside the buffer (the next `GetLine` read out of bounds); now it is the documented `eslEINVAL`, nothing changes,
-    and it is no clause of `SafeOp` any more (`Total.beyond_end_whole`). -/
+    outside the buffer (the next `GetLine` read out of bounds); now it is the documented `eslEINVAL`, nothing changes
+    (`Total.beyond_end_whole`). -/
 theorem fixed_setoffset_beyond_end_in_memory :
-    safeRunB { b := openBuf .string 4 [97, 98] } [.setOffset 3, .getLine] = true ∧
+    callerOkRunB { b := openBuf .string 4 [97, 98] } [.setOffset 3, .getLine] = true ∧
     (obsRun { b := openBuf .string 4 [97, 98] } [.setOffset 3, .getLine]).map (fun o => (o.st, o.bytes, o.off))
       = [(.einval, [], 0), (.ok, [97, 98], 2)] := by decide
 
 /-- REGRESSION (b86a62d): an anchor inside the window but ahead of the cursor; the next shifting refill used to move the
     cursor to a negative position (`St.fault` in the model of the old code, heap-buffer-overflow in the code). Now
-    everything from `min(anchor, pos)` on is kept and the reads are the specification's. Such histories are outside
-    `SafeOp` (the simulation relation assumes anchor ≤ cursor), so this is a checked instance, not yet a theorem for all. -/
+    everything from `min(anchor, pos)` on is kept and the reads are the specification's. Since round 4 such histories are
+    inside `history_total` (instances of the theorem, no longer only checked). -/
 theorem fixed_anchor_ahead_of_cursor :
-    safeRunB { b := openBuf .stream 2 srcW } [.setAnchor 2] = false ∧
+    callerOkRunB { b := openBuf .stream 2 srcW } [.setAnchor 2, .read 1, .get, .getLine] = true ∧
     (obsRun { b := openBuf .stream 2 srcW } [.setAnchor 2, .read 1, .get, .getLine]).map (fun o => (o.st, o.bytes, o.off))
+      = [(.ok, [], 0), (.ok, [97], 1), (.ok, [], 1), (.ok, [98], 3)] ∧
+    (specRun (AState.init srcW) [.setAnchor 2, .read 1, .get, .getLine]).map (fun o => (o.st, o.bytes, o.off))
       = [(.ok, [], 0), (.ok, [97], 1), (.ok, [], 1), (.ok, [98], 3)] ∧
     (obsRun { b := openBuf .stream 2 srcW } [.setStableAnchor 2, .get, .getLine]).map (fun o => (o.st, o.bytes, o.off))
       = [(.ok, [], 0), (.ok, [], 0), (.ok, [97, 98], 3)] := by decide
 
 /-- REGRESSION (b86a62d): rewinding inside the window to a byte before the active anchor, then a multi-page `Read`. -/
 theorem fixed_rewind_before_anchor :
-    safeRunB { b := openBuf .stream 2 srcW } [.setAnchor 0, .read 3, .raiseAnchor 0, .setAnchor 3] = true ∧
-    safeRunB { b := openBuf .stream 2 srcW } [.setAnchor 0, .read 3, .raiseAnchor 0, .setAnchor 3, .setOffset 2] = false ∧
+    callerOkRunB { b := openBuf .stream 2 srcW } [.setAnchor 0, .read 3, .raiseAnchor 0, .setAnchor 3, .setOffset 2, .read 6] = true ∧
     (obsRun { b := openBuf .stream 2 srcW } [.setAnchor 0, .read 3, .raiseAnchor 0, .setAnchor 3, .setOffset 2, .read 6]).map
         (fun o => (o.st, o.bytes, o.off))
       = [(.ok, [], 0), (.ok, [97, 98, 10], 3), (.ok, [], 3), (.ok, [], 3), (.ok, [], 2), (.ok, [10, 99, 100, 10, 101, 102], 8)] := by
   decide
 
--- non-vacuity of `history_total`: a history far outside the contract that is safe, with each documented outcome
-example : safeRunB { b := openBuf .stream 2 srcW } [.read 6, .setOffset 1, .setAnchor 2, .setOffset 40, .setOffset 3, .getLine] = true := by decide
+-- non-vacuity of `history_total`: a history far outside the contract, with each documented outcome
+example : callerOkRunB { b := openBuf .stream 2 srcW } [.read 6, .setOffset 1, .setAnchor 2, .setOffset 40, .setOffset 3, .getLine] = true := by decide
 example : (obsRun { b := openBuf .stream 2 srcW } [.read 6, .setOffset 1, .setAnchor 2, .setOffset 40, .setOffset 3, .getLine]).map (fun o => (o.st, o.off))
     = [(.ok, 6), (.einval, 6), (.einval, 6), (.einval, 12), (.einval, 12), (.eof, 12)] := by decide
 -- the fseeko branch: beyond the end of an unanchored FILE the cursor is left at the requested offset; rewinding from there works
 example : (obsRun { b := openBuf .file 2 srcW } [.setOffset 14, .getLine, .read 0, .setOffset 3, .getLine]).map (fun o => (o.st, o.bytes, o.off))
     = [(.einval, [], 14), (.eof, [], 14), (.ok, [], 14), (.ok, [], 3), (.ok, [99, 100], 6)] := by decide
-example : SafeRun { b := openBuf .file 2 srcW } [.setOffset 14, .getLine, .read 0, .setOffset 3, .getLine] :=
-  (safeRunB_iff _ _).mp (by decide)
+example : CallerOkRun { b := openBuf .file 2 srcW } [.setOffset 14, .getLine, .read 0, .setOffset 3, .getLine] :=
+  (callerOkRunB_iff _ _).mp (by decide)
+-- non-vacuity of `CallerOk`: a `Get`/`Set` pair inside it that is NOT inside the API contract `Valid 2` (the stream happens to
+-- have 4 bytes loaded), and the anchor-ahead / rewind-before-anchor histories (outside `Valid`, inside `CallerOkRun`)
+example : CallerOkRun { b := openBuf .string 2 srcW } [.get, .set 7, .getLine] := (callerOkRunB_iff _ _).mp (by decide)
+example : validB 2 (specStep (AState.init srcW) .get).2 (.set 7) = false := by decide
+example : CallerOkRun { b := openBuf .stream 4 srcW } [.setAnchor 3, .getLine, .setAnchor 3, .setOffset 1, .getToken [32], .raiseAnchor 3] :=
+  (callerOkRunB_iff _ _).mp (by decide)
+example : (obsRun { b := openBuf .stream 4 srcW } [.setAnchor 3, .getLine, .setAnchor 3, .setOffset 1, .getToken [32], .raiseAnchor 3]).map
+    (fun o => (o.st, o.bytes, o.off)) = [(.ok, [], 0), (.ok, [97, 98], 3), (.ok, [], 3), (.ok, [], 1), (.ok, [98], 2), (.ok, [], 2)] := by decide
+example : (aBrk { src := srcW, cur := 1, anchor := some 2, nanchor := 1 } 1).anchor = none ∧
+    (aBrk { src := srcW, cur := 3, anchor := some 2, nanchor := 1 } 3).anchor = some 2 := by decide
 
 /-! ## Stable anchors, exactly (round 3) -/
 
